@@ -13,7 +13,7 @@ from vf.p01 import build_mode, lsr_st
 from vf.p13 import cov_model
 
 CLASSES = ['FreeTrans', 'HarmonicVib', 'QRRHOVib', 'EinsteinVib', 'DebyeVib', 'RigidRotor', 'GroundStateElec', 'EmptyNucl',
-           'EmptyMode', 'ConstantMode', 'LSR', 'StatMech', 'Nasa', 'Nasa9', 'SingleNasa9', 'Shomate', 'Reference', 'References',
+           'EmptyMode', 'ConstantMode', 'LSR', 'ExtendedLSR', 'StatMech', 'Nasa', 'Nasa9', 'SingleNasa9', 'Shomate', 'Reference', 'References',
            'GasPressureAdj', 'PiecewiseCovEffect', 'CatSite', 'BEP', 'omkmBEP', 'Reaction', 'ChemkinReaction', 'SurfaceReaction',
            'Reactions', 'PhaseDiagram', 'IdealGasEOS', 'vanDerWaalsEOS']
 text_st = st.one_of(st.none(), st.text('abcXYZ 0123-_', min_size=1, max_size=12))
@@ -57,6 +57,11 @@ def obj_desc(draw, cls=None, depth=0):
     elif cls == 'LSR':
         d['mode'] = draw(lsr_st)
         d['notes'] = draw(text_st)
+    elif cls == 'ExtendedLSR':
+        n = draw(st.integers(1, 3))
+        fl = lambda lo, hi: [draw(st.floats(lo, hi)) for _ in range(n)]
+        d.update({'slopes': fl(0, 1), 'dE': fl(-150, 0), 'E_surf': fl(-100, 0), 'E_gas': fl(-100, 0),
+                  'intercept': draw(st.floats(-40, 40)), 'notes': draw(text_st)})
     elif cls == 'StatMech':
         d['species'] = draw(gen.statmech_desc(name=draw(gen.name_st)))
         d['elements'] = draw(st.one_of(st.none(), elements_st))
@@ -151,6 +156,10 @@ def build(d):
         o = build_mode('elec', d['mode'])
         o.notes = d['notes']
         return o
+    if cls == 'ExtendedLSR':
+        from pmutt.statmech.lsr import ExtendedLSR
+        return ExtendedLSR(slopes=list(d['slopes']), intercept=d['intercept'], reactions=list(d['dE']),
+                           surf_species=list(d['E_surf']), gas_species=list(d['E_gas']), notes=d['notes'])
     if cls == 'StatMech':
         from pmutt.empirical.references import References
         from pmutt.mixture.cov import PiecewiseCovEffect
@@ -286,7 +295,7 @@ def snapshot(obj, depth=0):
              'vib_model', 'rot_model', 'elec_model', 'nucl_model', 'T_low', 'T_mid', 'T_high', 'a_low', 'a_high', 'nasas', 'units',
              'reactants', 'products', 'transition_state', 'reactants_stoich', 'products_stoich', 'transition_state_stoich',
              'reactions', 'norm_factors', 'offset', 'T_ref', 'HoRT_ref', 'id', 'beta', 'is_adsorption', 'sticking_coeff',
-             'direction', 'slope', 'intercept', 'descriptor', 'D0', 'use_motz_wise', 'A', 'Ea', 'gas_phase']
+             'direction', 'slope', 'slopes', 'intercept', 'descriptor', 'D0', 'use_motz_wise', 'A', 'Ea', 'gas_phase']
     for a in list(dict.fromkeys(params + extra)):
         if hasattr(obj, a):
             try:
@@ -363,7 +372,7 @@ def check_rt(d, ctx):
     obj = build(d)
     cname = d['cls']
     ctx.label('cls:' + cname)
-    ctx.nontrivial(cname in ('StatMech', 'Nasa', 'Nasa9', 'Shomate', 'Reference', 'References', 'LSR', 'Reaction',
+    ctx.nontrivial(cname in ('StatMech', 'Nasa', 'Nasa9', 'Shomate', 'Reference', 'References', 'LSR', 'ExtendedLSR', 'Reaction',
                              'ChemkinReaction', 'SurfaceReaction', 'Reactions', 'PhaseDiagram') or
                    any(d.get(k) for k in ('notes', 'D0', 'name', 'elements')))
     before = snapshot(obj)
@@ -423,7 +432,7 @@ def class_clause(cls, quick, thorough):
 
 GROUPS = {
     'modes': ['FreeTrans', 'HarmonicVib', 'QRRHOVib', 'EinsteinVib', 'DebyeVib', 'RigidRotor', 'GroundStateElec', 'EmptyNucl',
-              'EmptyMode', 'ConstantMode', 'LSR'],
+              'EmptyMode', 'ConstantMode', 'LSR', 'ExtendedLSR'],
     'species': ['StatMech', 'Nasa', 'Nasa9', 'SingleNasa9', 'Shomate'],
     'aux': ['Reference', 'References', 'GasPressureAdj', 'PiecewiseCovEffect', 'CatSite', 'BEP', 'omkmBEP', 'IdealGasEOS',
             'vanDerWaalsEOS'],
